@@ -206,8 +206,31 @@ def main(argv=None):
     # 1. translate
     theorems = list(prop.THEOREMS)
     module = f"Verif.Props.{prop_id}"
-    b = core.build(module, pre=translate.translate, audit_of=(prop_id, theorems))
+    supp_thms = list(getattr(prop, "SUPP_THEOREMS", []))
+    supp = (f"Verif.Props.{prop_id}Supp", supp_thms) if supp_thms else None
+    b = core.build(module, pre=translate.translate, audit_of=(prop_id, theorems), supp=supp)
     reports = b.pre or {}
+    # supplementary obligations: regenerated parts and theorems next to the property (SUPP_GEN,
+    # SUPP_THEOREMS in Props/CxxSupp.lean).  Whatever happens to them is reported as INFO and in the
+    # evidence; the verdict is about the property's own obligations only.
+    supp_info = []
+    for name in getattr(prop, "SUPP_GEN", []):
+        for key in ("untranslatable", "aux_untranslatable"):
+            for u in reports.get(name, {}).get(key, []) or []:
+                supp_info.append(f"Gen/{name}.lean not regenerated from the current source: {u}")
+    supp_ok = {}
+    if b.supp is not None:
+        if b.supp["ok"]:
+            for t in supp_thms:
+                r = b.supp["audit"].get(t, {})
+                supp_ok[t] = bool(r.get("ok"))
+                if not r.get("ok"):
+                    supp_info.append(f"supplementary theorem {t}: {r.get('why')}")
+        else:
+            for e in b.supp["errors"][:6]:
+                supp_info.append(f"supplementary module {b.supp['module']} does not build: {e.get('decl') or '?'}: {e['file']}:{e['line']}: {e['msg']}")
+    for line in supp_info[:8]:
+        print(f"INFO property={prop_id} supplementary (not a verdict): {line}"[:400])
     for entry in getattr(prop, "GEN", []):
         name, _, part = entry.partition("/")
         for u in reports.get(name, {}).get("untranslatable", []):
@@ -350,8 +373,11 @@ def main(argv=None):
         "samples": ctx.samples or [{"theorems": theorems}],
         "distribution": dict(ctx.dist),
         "known_findings_seen": sorted(seen_known),
-        "notes": ctx.notes,
+        "notes": ctx.notes + [f"supplementary: {x}" for x in supp_info],
     }
+    if supp_thms:
+        cov["supplementary_theorems"] = {t: (b.supp["audit"].get(t, {}).get("axioms") if b.supp and b.supp["ok"] else None) for t in supp_thms}
+        cov["supplementary_discharged"] = sum(1 for t in supp_thms if supp_ok.get(t))
     if ctx.exhaustive_parts:
         cov["exhaustive_parts"] = ctx.exhaustive_parts
     if cov["discharged"] == 0:
@@ -377,7 +403,8 @@ def main(argv=None):
     for l in lines:
         print(l)
     print(
-        f"[{prop_id}] tier={args.tier} seed={seed} theorems={len(discharged)}/{len(theorems)} "
+        f"[{prop_id}] tier={args.tier} seed={seed} theorems={len(discharged)}/{len(theorems)}"
+        + (f"+{sum(1 for t in supp_thms if supp_ok.get(t))}/{len(supp_thms)}s " if supp_thms else " ") +
         f"cases={ctx.evaluations} nontrivial={ctx.distinct_nontrivial} divergences={len(ctx.divergences)} "
         f"violations={len(reported)} known={len(seen_known)} wall={doc['wall_s']}s"
     )
